@@ -38,7 +38,8 @@ RULE = ("enc: all (ER, priority, DADR shape{none, station mac 1/2/6/7/255, remot
         "mutated valid frames.  distinct = distinct (stream, header class) signatures: control bits, "
         "address kinds, MAC-length class, message class / error kind and length bucket"
         "; history: multi-step histories in one process (refused encode/decode then valid ones, the same NPDU / message object re-used and encoded twice, aliasing of produced PDUs), each step judged like a single operation"
-        "; wave 5: caller-owned input buffers (aliasing on the input side), vendor-subclass stream (run-time registered proprietary message classes 0x80..0xFF, generic decode -> typed decode -> re-encode) and subclass-history stream (unregistered user subclasses of the 12 message classes, then the standard decode streams and a registry identity check) in forked workers")
+        "; wave 5: caller-owned input buffers (aliasing on the input side), vendor-subclass stream (run-time registered proprietary message classes 0x80..0xFF, generic decode -> typed decode -> re-encode) and subclass-history stream (unregistered user subclasses of the 12 message classes, then the standard decode streams and a registry identity check) in forked workers"
+        "; wave 6: every NPDU.decode stream repeated through the bare NPCI.decode entry point (NPCI, a header-only subclass, a mix-in): hdec")
 TRUSTED = ["lean/BacVerif/Model/Npci.lean is a hand transcription of npdu.py (NPCI/NPDU encode/decode, the "
            "12 message classes); tied by the enc/dec/menc/mdec/bdec correspondence streams",
            "translator/registries.py (npdu_types -> Gen/NpduTypes.lean)",
